@@ -211,8 +211,13 @@ class Folder:
                 for t in target.elts:
                     self._bind(t, Unknown('unpack'), env, modname)
         elif isinstance(target, ast.Attribute):
-            # e.g. MC._ERR_TWPRGE = ... inside functions only; ignore here
-            pass
+            # `TRS._TRS_UNPACKER_REGEX = TRS._compile_unpacker_regex()` right after the class body:
+            # a class attribute filled in at module level
+            if isinstance(target.value, ast.Name) and isinstance(env.get(target.value.id), ClassVal):
+                if isinstance(val, RegexVal) and val.name is None:
+                    val.name = f"{target.value.id}.{target.attr}"
+                    val.module = modname
+                env[target.value.id].attrs[target.attr] = val
         elif isinstance(target, ast.Subscript) and isinstance(target.value, ast.Name):
             cur = env.get(target.value.id)
             key = self.eval(target.slice, env, modname)
@@ -484,6 +489,14 @@ class Folder:
                     import re as _re
                     return _re.escape(a0)
                 return Unknown('re.escape arg')
+            if isinstance(f.value, ast.Name) and f.value.id == 'str' and 'str' not in env and f.attr == 'maketrans':
+                args = [ev(a) for a in node.args]
+                if args and not any(is_unknown(a) for a in args) and all(isinstance(a, (str, dict)) for a in args):
+                    try:
+                        return str.maketrans(*args)         # a table of code points built from constants
+                    except Exception:
+                        return Unknown('maketrans failed')
+                return Unknown('maketrans args')
             if isinstance(base, str) and f.attr == 'format':
                 args = [ev(a) for a in node.args]
                 kw = {k.arg: ev(k.value) for k in node.keywords}
@@ -505,6 +518,8 @@ class Folder:
             if isinstance(base, (list, tuple)) and f.attr == 'copy':
                 return list(base)
             fv = base
+            if isinstance(base, ClassVal) and isinstance(base.attrs.get(f.attr), FuncVal):
+                fv = base.attrs[f.attr]         # a static method called through its class
         else:
             fv = ev(f)
         if isinstance(f, ast.Name) and f.id in ('tuple', 'list', 'set', 'frozenset', 'dict', 'len', 'str', 'int', 'sorted') and f.id not in env:
